@@ -764,7 +764,232 @@ class EdgesKind(Kind):
                 yield dict(case, edges=e[:i] + e[i + 1:], kind='list' if case['kind'] in ('range',) else case['kind'])
 
 
-KINDS = [HistKind(), EdgesKind()]
+# ---------------------------------------------------------------------------------------------------------------------
+# accumulator precision x trace count: totals beyond the accumulator dtype while every cell fits (run-length encoded)
+INT_LIMITS = {'uint8': 255, 'int8': 127, 'uint16': 65535, 'int16': 32767}
+ALL_PRECISIONS = ['uint8', 'int8', 'uint16', 'int16', 'uint32', 'int32', 'uint64', 'int64', 'float32', 'float64']
+
+
+def make_large(rng, precision, variant, mode='dist'):
+    """A 2..3 x 2..4 table of target cell counts <= the dtype limit whose marginal totals exceed it."""
+    limit = INT_LIMITS.get(precision)
+    nb = rng.choice([2, 3])
+    nc = 4 if mode == 'attack' else rng.choice([2, 3])
+    parts = [0, 1, 2, 3] if mode == 'attack' else rng.sample(range(0, 6), nc)
+    edges = [float(2 * k) for k in range(nb + 1)]
+    if variant == 'f32big':               # one cell just below 2**24, total above it
+        cells = [[0] * nc for _ in range(nb)]
+        cells[0][0] = 2 ** 24 - 5
+        cells[1][1] = 8
+        cells[1][0] = 3
+    elif limit is None:
+        cells = [[rng.choice([0, 1, 7, rng.randint(10, 400)]) for _ in range(nc)] for _ in range(nb)]
+        cells[0][0] = max(cells[0][0], 5)
+    elif variant == 'big':                # every marginal total wraps, one cell sits exactly on the limit
+        cells = [[rng.randint(limit // 2, limit) for _ in range(nc)] for _ in range(nb)]
+        cells[rng.randrange(nb)][rng.randrange(nc)] = limit
+        cells[rng.randrange(nb)][rng.randrange(nc)] = rng.choice([0, 1])
+    else:                                 # 'edge': the grand total is limit + 1 (or limit), the other totals stay below
+        total = limit + rng.choice([1, 1, 0, 2])
+        cells = [[0] * nc for _ in range(nb)]
+        rest = total
+        slots = [(b, v) for b in range(nb) for v in range(nc)]
+        rng.shuffle(slots)
+        for i, (b, v) in enumerate(slots[:4]):
+            c = rest if i == 3 else rest // (4 - i) + rng.randint(-3, 3)
+            cells[b][v] = c
+            rest -= c
+    runs = []
+    for b in range(nb):
+        for v in range(nc):
+            c = cells[b][v]
+            if c <= 0:
+                continue
+            c1 = rng.randint(0, c) if c > 1 else c
+            for cnt, off in ((c1, 0), (c - c1, 1)):           # on the left edge of the bin / inside it
+                if cnt > 0:
+                    x0 = 2 * b + off
+                    x1 = 2 * ((b + 1) % nb) + (1 - off)        # second column: the bins rotated
+                    runs.append([[x0, x1], [parts[v], parts[(v + 1) % nc]], cnt])
+    big = (limit or 300) + rng.randint(1, 50) if variant != 'f32big' else 11
+    runs.append([[2 * nb + 1, 2 * nb + 3], [parts[0], parts[-1]], big])           # beyond the last edge: counted nowhere
+    if mode != 'attack':
+        runs.append([[0, 1], [max(parts) + 1, max(parts) + 2], big])             # undeclared value: counted nowhere
+    last = runs.pop(rng.randrange(len(runs)))                                    # one sample on the last edge (last bin)
+    runs.append(last)
+    rng.shuffle(runs)
+    n = sum(r[2] for r in runs)
+    k = rng.choice([1, 2, 3])
+    cuts = sorted(rng.sample(range(1, n), k - 1)) if n > k else []
+    splits = [b - a for a, b in zip([0] + cuts, cuts + [n])]
+    return {'mode': mode, 'edges': edges, 'parts': parts, 'precision': precision, 'variant': variant, 'runs': runs, 'splits': splits,
+            'n': n, 'guesses': 2 if mode == 'attack' else 0, 'max_cell': max(max(r) for r in cells)}
+
+
+class LargeKind(Kind):
+    name = 'mia_large_n'
+    header = HDR
+    case_type = 'mia_rl_case'
+    check_fn = 'mia_rl_check'
+    explain_fn = 'mia_rl_expected'
+    shard = 4
+    rule = ('every accumulator precision the code accepts (uint8/16/32/64, int8/16/32/64, float32, float64; float16 is refused by '
+            'numba) x trace counts around the limits of the TOTALS while every cell fits: uint8/int8/uint16/int16 with all marginal '
+            'totals beyond the dtype maximum and one cell exactly on it, and with the grand total = maximum + 0/1/2; float32 with a '
+            'total above 2^24 (thorough); MIADistinguisher in 1-3 update() calls and MIAAttack; rows run-length encoded and '
+            'evaluated as weighted sums inside Coq (Props/C13.run_length_case_is_the_expanded_case); accumulators exact, compute() '
+            'against the model; non-trivial = at least two bins and two classes populated')
+
+    def gen(self, rng, tier):
+        thorough = tier != 'quick'
+        for rep in range(3 if thorough else 1):
+            for prec in ('uint8', 'int8', 'uint16', 'int16'):
+                yield make_large(rng, prec, 'big')
+                yield make_large(rng, prec, 'edge')
+            yield make_large(rng, 'uint8', 'big', mode='attack')
+            yield make_large(rng, 'uint16', 'big', mode='attack')
+            for prec in ('uint32', 'int32', 'uint64', 'int64', 'float32', 'float64'):
+                yield make_large(rng, prec, 'plain')
+            if thorough:
+                yield make_large(rng, 'int8', 'edge', mode='attack')
+                yield make_large(rng, 'int16', 'big', mode='attack')
+        if thorough:
+            yield make_large(rng, 'float32', 'f32big')
+
+    @staticmethod
+    def _flat_rows(case):
+        G = case['guesses']
+        if case['mode'] == 'attack':
+            return [[r[0], [(v ^ g) & 3 for g in range(G) for v in r[1]], r[2]] for r in case['runs']]
+        return case['runs']
+
+    def run(self, case):
+        return WORKER.call(self.name, case)
+
+    def run_impl(self, case):
+        import scared
+        runs = case['runs']
+        counts = np.array([r[2] for r in runs], dtype='int64')
+        n = int(counts.sum())
+        if n != case['n'] or sum(case['splits']) != n:
+            raise RuntimeError('C13 harness: run lengths do not sum to n')
+        traces = np.repeat(np.array([r[0] for r in runs], dtype='uint8'), counts, axis=0)
+        data = np.repeat(np.array([r[1] for r in runs], dtype='uint8'), counts, axis=0)
+        with warnings.catch_warnings():
+            warnings.simplefilter('ignore')
+            if case['mode'] == 'dist':
+                d = scared.MIADistinguisher(bin_edges=list(case['edges']), partitions=list(case['parts']), precision=case['precision'])
+                pos = 0
+                for b in case['splits']:
+                    d.update(traces[pos:pos + b], data[pos:pos + b])
+                    pos += b
+                res = np.asarray(d.compute())
+            else:
+                import estraces
+                G = case['guesses']
+
+                @scared.attack_selection_function(guesses=range(G))
+                def sf(plaintext, guesses):
+                    out = np.empty((plaintext.shape[0], len(guesses), plaintext.shape[1]), dtype='uint8')
+                    for g in guesses:
+                        out[:, g, :] = (plaintext ^ g) & 3
+                    return out
+                d = scared.MIAAttack(selection_function=sf, model=scared.Value(), discriminant=scared.maxabs,
+                                     bin_edges=list(case['edges']), partitions=list(case['parts']), precision=case['precision'])
+                d.run(scared.Container(estraces.read_ths_from_ram(samples=traces, plaintext=data)))
+                res = np.asarray(d.results)
+                res = res.reshape(G * data.shape[1], traces.shape[1])
+            acc = np.asarray(d.accumulators)
+        return {'acc': [[[[int(v) for v in c] for c in b] for b in s] for s in acc.tolist()],
+                'acc_integral': bool(np.all(acc == np.round(acc))), 'res': [[float(v) for v in row] for row in res.tolist()],
+                'acc_dtype': str(acc.dtype), 'res_dtype': str(res.dtype), 'processed': int(d.processed_traces)}
+
+    @staticmethod
+    def _ln_keys(acc):
+        """Integers whose logarithm the model needs: numerators / denominators of c/c(v) and c(b)/N, from the observed table."""
+        from fractions import Fraction
+        keys = set()
+        for s in acc:
+            nb, nc, nw = len(s), len(s[0]), len(s[0][0])
+            for w in range(nw):
+                cv = [sum(s[b][v][w] for b in range(nb)) for v in range(nc)]
+                cb = [sum(s[b][v][w] for v in range(nc)) for b in range(nb)]
+                N = sum(cb)
+                for b in range(nb):
+                    if N > 0 and cb[b] > 0:
+                        f = Fraction(cb[b], N)
+                        keys.update((f.numerator, f.denominator))
+                    for v in range(nc):
+                        if cv[v] > 0 and s[b][v][w] > 0:
+                            f = Fraction(s[b][v][w], cv[v])
+                            keys.update((f.numerator, f.denominator))
+        return sorted(k for k in keys if k > 0)
+
+    def coq(self, case, obs):
+        rows = self._flat_rows(case)
+        runs = C.coq_list(rows, lambda r: '((%s, %s), %d%%positive)' % (C.coq_list(r[0], F), C.coq_list(r[1], C.coq_z), r[2]))
+        ns, nw = len(rows[0][0]), len(rows[0][1])
+        if 'raised' in obs:
+            acc, res, lnt = '[]', '[]', '[]'
+        else:
+            acc = C.coq_list(obs['acc'], lambda s: C.coq_list(s, lambda b: C.coq_list(b, lambda c: C.coq_list(c, C.coq_z))))
+            res = C.coq_list(obs['res'], lambda r: C.coq_list(r, F))
+            try:
+                keys = self._ln_keys(obs['acc'])
+            except Exception:
+                keys = []
+            lnt = C.coq_list(keys, lambda k: '(%s, %s)' % (C.coq_z(k), F(math.log(k))))
+        return ('{| rc_edges := %s; rc_parts := %s; rc_runs := %s; rc_ns := %s; rc_nw := %s; rc_ln := %s; rc_f32 := %s; '
+                'rc_obs_acc := %s; rc_obs_res := %s |}' % (
+                    C.coq_list(case['edges'], F), C.coq_list(case['parts'], C.coq_z), runs, C.coq_nat(ns), C.coq_nat(nw), lnt,
+                    C.coq_bool(case['precision'] == 'float32'), acc, res))
+
+    def oracle(self, case, obs):
+        if 'raised' in obs:
+            return f'MIA ({case["mode"]}, precision {case["precision"]}) raised {obs["raised"]}: {obs["msg"]}'
+        if obs['processed'] != case['n']:
+            return 'processed_traces is not the number of traces'
+        if any(v < -1e-6 for r in obs['res'] for v in r if v == v):
+            return f'negative mutual information {min(v for r in obs["res"] for v in r if v == v)}'
+        return None
+
+    def nontrivial(self, case, obs):
+        return HistKind.nontrivial(self, case, obs)
+
+    def features(self, case, obs):
+        lim = INT_LIMITS.get(case['precision'])
+        return {'precision': case['precision'], 'variant': case['variant'], 'mode': case['mode'], 'batches': len(case['splits']),
+                'n_vs_limit': 'n/a' if lim is None else ('n>limit' if case['n'] > lim else 'n<=limit'),
+                'max_cell_vs_limit': 'n/a' if lim is None else ('cell==limit' if case['max_cell'] == lim else 'cell<limit')}
+
+    def tags(self, case, obs):
+        return ['mia_large_n', 'mia_large_n_' + case['precision']] + (['mia_' + obs['raised']] if 'raised' in obs else [])
+
+    def sample(self, case, obs):
+        c = {k: case[k] for k in ('mode', 'edges', 'parts', 'precision', 'variant', 'n', 'splits', 'max_cell')}
+        c['runs'] = case['runs'][:6]
+        o = {'res': obs.get('res'), 'acc_sample0': (obs.get('acc') or [None])[0]}
+        return {'case': c, 'observed': o}
+
+    def shrink(self, case):
+        runs = case['runs']
+        if len(runs[0][0]) > 1:
+            for s in range(len(runs[0][0])):
+                yield dict(case, runs=[[[r[0][s]], r[1], r[2]] for r in runs])
+        if len(runs[0][1]) > 1 and case['mode'] == 'dist':
+            for w in range(len(runs[0][1])):
+                yield dict(case, runs=[[r[0], [r[1][w]], r[2]] for r in runs])
+        if len(case['splits']) > 1:
+            yield dict(case, splits=[case['n']])
+            return
+        if len(runs) > 2:
+            for i in range(len(runs)):
+                rest = runs[:i] + runs[i + 1:]
+                n = sum(r[2] for r in rest)
+                yield dict(case, runs=rest, n=n, splits=[n])
+
+
+KINDS = [HistKind(), EdgesKind(), LargeKind()]
 
 
 def _type_refusals():
